@@ -203,9 +203,11 @@ theorem aset_none {l : List (α × β)} {x : α} {v : β} (h : aget l x = none) 
 
 end AList2
 
-/-- Invariant of the memo dictionary: every entry is the `cur_path` of its key and is justified. -/
+/-- Invariant of the memo dictionary: every entry is the `cur_path` of its key, is justified, and
+no key is a pair of identical constants. -/
 def ResInv (f : Forest) (res : Res) : Prop :=
-  (∀ ent ∈ res, curPath f ent.1.1 ent.1.2 = .ok ent.2) ∧ (∀ ent ∈ res, Der res ent.1.1 ent.1.2)
+  (∀ ent ∈ res, curPath f ent.1.1 ent.1.2 = .ok ent.2) ∧ (∀ ent ∈ res, Der res ent.1.1 ent.1.2) ∧
+  (∀ ent ∈ res, ent.1.1 ≠ ent.1.2)
 
 /-- What one successful call `g a b res = ok res'` guarantees. -/
 def GoodCall (f : Forest) (g : Cst → Cst → Res → Except Err Res) : Prop :=
@@ -267,8 +269,9 @@ theorem explain_good {E : Eqn → Prop} {f : Forest} (F : ForestOK E f) (n : Nat
       · subst hc; exact .refl _
       · cases hg : aget res (a, b) with
         | none => simp [hg] at hc
-        | some p => exact J.2 _ (aget_mem hg)
-    · split at h
+        | some p => exact J.2.1 _ (aget_mem hg)
+    · next hnc =>
+      split at h
       · cases h
       · next path hp =>
         split at h
@@ -283,14 +286,14 @@ theorem explain_good {E : Eqn → Prop} {f : Forest} (F : ForestOK E f) (n : Nat
             rw [hp] at this
             cases this
             rw [aset_same hg] at h; subst h
-            exact ⟨Jr, sr, Jr.2 _ (aget_mem hg)⟩
+            exact ⟨Jr, sr, Jr.2.1 _ (aget_mem hg)⟩
           | none =>
             rw [aset_none hg] at h; subst h
             have sub : ∀ ent ∈ r, ent ∈ r ++ [((a, b), path)] := fun e he => List.mem_append_left _ he
             have dab : Der (r ++ [((a, b), path)]) a b :=
               .entry (by simp) (curPath_ok F hp).1
                 (fun e1 e2 hm => (dr e1 e2 hm).1.mono sub) (fun e1 e2 hm => (dr e1 e2 hm).2.mono sub)
-            refine ⟨⟨?_, ?_⟩, fun e he => sub e (sr e he), dab⟩
+            refine ⟨⟨?_, ?_, ?_⟩, fun e he => sub e (sr e he), dab⟩
             · intro ent he
               simp only [List.mem_append, List.mem_singleton] at he
               rcases he with he | he
@@ -299,17 +302,56 @@ theorem explain_good {E : Eqn → Prop} {f : Forest} (F : ForestOK E f) (n : Nat
             · intro ent he
               simp only [List.mem_append, List.mem_singleton] at he
               rcases he with he | he
-              · exact (Jr.2 ent he).mono sub
+              · exact (Jr.2.1 ent he).mono sub
               · subst he; exact dab
+            · intro ent he
+              simp only [List.mem_append, List.mem_singleton] at he
+              rcases he with he | he
+              · exact Jr.2.2 ent he
+              · subst he; exact fun e => hnc (.inl e)
 
 theorem explainTop_ok {E : Eqn → Prop} {s : State} (S : Sound E s) {a b : Cst} {res : Res}
     (h : explainTop s a b = .ok res) :
     (∀ ent ∈ res, ∀ l ∈ ent.2, LabelOK E l) ∧ (∀ ent ∈ res, Cl (resEqs res) ent.1.1 ent.1.2) ∧ Cl (resEqs res) a b := by
   unfold explainTop at h
-  have J0 : ResInv s.forest [] := ⟨by simp, by simp⟩
+  have J0 : ResInv s.forest [] := ⟨by simp, by simp, by simp⟩
   obtain ⟨J, _, d⟩ := explain_good S.forest _ _ _ _ _ h J0
-  refine ⟨?_, fun ent he => (J.2 ent he).cl, d.cl⟩
+  refine ⟨?_, fun ent he => (J.2.1 ent he).cl, d.cl⟩
   intro ent he l hl
   exact (curPath_ok S.forest (J.1 ent he)).2 l hl
+
+theorem Der.key {res : Res} {x y : Cst} (d : Der res x y) : x = y ∨ ∃ p, ((x, y), p) ∈ res := by
+  cases d with
+  | refl => exact .inl rfl
+  | entry hm _ _ _ => exact .inr ⟨_, hm⟩
+
+/-- The dictionary returned by `explain` is closed for its consumer: the queried pair is a key,
+every path chains from the first to the second constant of its key, and every application label
+on a path has an entry for each of its argument pairs, in the orientation of the label. -/
+theorem explainTop_closed {E : Eqn → Prop} {s : State} (S : Sound E s) {a b : Cst} {res : Res}
+    (h : explainTop s a b = .ok res) :
+    (a = b ∨ ∃ p, ((a, b), p) ∈ res) ∧
+    ∀ ent ∈ res, Chain ent.2 ent.1.1 ent.1.2 ∧
+      ∀ e1 e2, Label.comb e1 e2 ∈ ent.2 →
+        (e1.a1 = e2.a1 ∨ ∃ p, ((e1.a1, e2.a1), p) ∈ res) ∧ (e1.a2 = e2.a2 ∨ ∃ p, ((e1.a2, e2.a2), p) ∈ res) := by
+  unfold explainTop at h
+  have J0 : ResInv s.forest [] := ⟨by simp, by simp, by simp⟩
+  obtain ⟨J, _, d⟩ := explain_good S.forest _ _ _ _ _ h J0
+  refine ⟨d.key, ?_⟩
+  intro ent he
+  obtain ⟨⟨x, y⟩, p⟩ := ent
+  have hcp := J.1 _ he
+  refine ⟨(curPath_ok S.forest hcp).1, ?_⟩
+  intro e1 e2 hm
+  have hd : Der res x y := J.2.1 _ he
+  have hne : x ≠ y := J.2.2 _ he
+  cases hd with
+  | refl => exact absurd rfl hne
+  | entry hm' _ d1 d2 =>
+    have := J.1 _ hm'
+    simp only at this
+    rw [hcp] at this
+    cases this
+    exact ⟨(d1 e1 e2 hm).key, (d2 e1 e2 hm).key⟩
 
 end Holpy.C17
